@@ -71,6 +71,34 @@ harness! {
     }
 }
 
+harness! {
+    fn q06_prss_index_from_u128_in_range() {
+        let v: u128 = kani::any();
+        kani::assume(v <= u128::from(u32::MAX));
+        let x = PrssIndex::from(v);
+        assert!(x == PrssIndex::from(v as u32), "in-range indices are preserved");
+        let y = PrssIndex128::new(x, 0);
+        if let Ok(y) = &y {
+            assert!(u128::from(*y) >> 32 == v);
+        }
+        std::mem::forget(y);
+        kani::cover!(v == u128::from(u32::MAX));
+    }
+}
+
+harness! {
+    fn q06_prss_index_from_oversized_u128_mustpanic() {
+        // an index that does not fit 32 bits must be refused loudly; silently wrapping it would make it
+        // alias a small index (the same randomness drawn twice)
+        let v: u128 = kani::any();
+        kani::assume(v > u128::from(u32::MAX));
+        kani::cover!(true);
+        let x = PrssIndex::from(v);
+        std::mem::forget(x);
+        assert!(false, "MUST NOT RETURN: an oversized index was accepted");
+    }
+}
+
 // native replay slot (cargo kani playback): the driver points IPA_VERIF_REPLAY_DIR at a directory
 // holding one file per hook; the generated test calls the harness by its path relative to this module.
 #[cfg(test)]
